@@ -38,11 +38,35 @@ pub struct Invocation {
     pub stdin: Vec<u8>,
     pub out: OutKind,
     pub bin: Bin,
+    /// when set, standard input is a regular file holding `stdin`, redirected
+    /// with its offset already at this position
+    pub stdin_file_offset: Option<usize>,
+}
+
+/// A file name that is not valid UTF-8 is written with this marker in `args`
+/// and `files`; on disk and on the command line the marker is the byte 0xE9.
+pub const NON_UTF8_MARK: &str = "\u{e000}NONUTF8\u{e000}";
+
+pub fn os_name(name: &str) -> OsString {
+    use std::os::unix::ffi::OsStringExt;
+    if name.contains(NON_UTF8_MARK) {
+        let mut bytes = vec![];
+        let mut rest = name;
+        while let Some(i) = rest.find(NON_UTF8_MARK) {
+            bytes.extend_from_slice(rest[..i].as_bytes());
+            bytes.push(0xe9);
+            rest = &rest[i + NON_UTF8_MARK.len()..];
+        }
+        bytes.extend_from_slice(rest.as_bytes());
+        OsString::from_vec(bytes)
+    } else {
+        OsString::from(name)
+    }
 }
 
 impl Invocation {
     pub fn to_json(&self, unit: &str) -> J {
-        json!({"unit": unit, "args": self.args, "stdin": hex(&self.stdin), "out": format!("{:?}", self.out), "bin": self.bin.name(),
+        json!({"unit": unit, "args": self.args, "stdin": hex(&self.stdin), "out": format!("{:?}", self.out), "bin": self.bin.name(), "stdin_file_offset": self.stdin_file_offset,
                "files": self.files.iter().map(|f| match &f.kind {
                    FileKind::Regular(b) => json!({"name": f.name, "kind": "regular", "bytes": hex(b)}),
                    FileKind::Fifo(b) => json!({"name": f.name, "kind": "fifo", "bytes": hex(b)}),
@@ -60,6 +84,7 @@ impl Invocation {
                 _ => OutKind::Pty,
             },
             bin: Bin::from_name(j["bin"].as_str()?)?,
+            stdin_file_offset: j["stdin_file_offset"].as_u64().map(|x| x as usize),
             files: j["files"]
                 .as_array()?
                 .iter()
@@ -158,7 +183,8 @@ pub fn parse_args(args: &[String]) -> Parsed {
 /// Extension table from the manual, matched case-insensitively on the last
 /// extension (Rust's `Path::extension`).
 pub fn extension_format(name: &str) -> Option<Fmt> {
-    let ext = std::path::Path::new(name).extension()?.to_str()?.to_ascii_lowercase();
+    let os = os_name(name);
+    let ext = std::path::Path::new(&os).extension()?.to_str()?.to_ascii_lowercase();
     match ext.as_str() {
         "json" => Some(Fmt::Json),
         "msgpack" => Some(Fmt::Msgpack),
@@ -166,6 +192,11 @@ pub fn extension_format(name: &str) -> Option<Fmt> {
         "yaml" | "yml" => Some(Fmt::Yaml),
         _ => None,
     }
+}
+
+/// How xt prints the path in messages (`Path::display`, lossy).
+pub fn display_name(p: &str) -> String {
+    os_name(p).to_string_lossy().into_owned()
 }
 
 #[derive(Clone, Debug)]
@@ -219,13 +250,17 @@ pub fn expectation(inv: &Invocation) -> Expect {
                             break;
                         }
                         stdin_used = true;
-                        (inv.stdin.clone(), Mode::Reader(Sched::Full), "standard input".into())
+                        let content = match inv.stdin_file_offset {
+                            Some(off) => inv.stdin[off.min(inv.stdin.len())..].to_vec(),
+                            None => inv.stdin.clone(),
+                        };
+                        (content, Mode::Reader(Sched::Full), "standard input".into())
                     } else {
                         match inv.files.iter().find(|f| f.name == *p).map(|f| &f.kind) {
-                            Some(FileKind::Regular(b)) => (b.clone(), if b.is_empty() { Mode::Reader(Sched::Full) } else { Mode::Slice }, p.clone()),
-                            Some(FileKind::Fifo(b)) => (b.clone(), Mode::Reader(Sched::Full), p.clone()),
+                            Some(FileKind::Regular(b)) => (b.clone(), if b.is_empty() { Mode::Reader(Sched::Full) } else { Mode::Slice }, display_name(p)),
+                            Some(FileKind::Fifo(b)) => (b.clone(), Mode::Reader(Sched::Full), display_name(p)),
                             Some(FileKind::Dir) | Some(FileKind::Missing) | None => {
-                                failing = Some(Some(p.clone()));
+                                failing = Some(Some(display_name(p)));
                                 break;
                             }
                         }
@@ -258,7 +293,7 @@ pub fn execute(inv: &Invocation) -> Res {
     for f in &inv.files {
         match &f.kind {
             FileKind::Regular(b) => {
-                sc.file(&f.name, b);
+                std::fs::write(sc.dir.join(os_name(&f.name)), b).expect("write input file");
             }
             FileKind::Fifo(b) => {
                 let p = sc.fifo(&f.name);
@@ -288,13 +323,17 @@ pub fn execute(inv: &Invocation) -> Res {
         _ => vec![],
     };
     let fifos: Vec<_> = fifos.into_iter().filter(|(p, _)| reached.iter().any(|r| sc.dir.join(r) == *p)).collect();
-    let args: Vec<OsString> = inv.args.iter().map(OsString::from).collect();
+    let args: Vec<OsString> = inv.args.iter().map(|a| os_name(a)).collect();
     let stdout = match inv.out {
         OutKind::Pipe => StdoutSpec::Pipe,
         OutKind::File => StdoutSpec::File,
         OutKind::Pty => StdoutSpec::Pty,
     };
-    run_xt(inv.bin, &args, &sc.dir, StdinSpec::Bytes(inv.stdin.clone()), stdout, fifos)
+    let stdin = match inv.stdin_file_offset {
+        Some(off) => StdinSpec::FileAt(inv.stdin.clone(), off.min(inv.stdin.len())),
+        None => StdinSpec::Bytes(inv.stdin.clone()),
+    };
+    run_xt(inv.bin, &args, &sc.dir, stdin, stdout, fifos)
 }
 
 /// Compares an observed run with the model. Returns a class label on success.
